@@ -150,15 +150,49 @@ def _closures(body):
     return res
 
 
+# a comparison between two plain operands (identifiers, paths, fields, methods without arguments, a leading `*`) in a position
+# where it is a condition: after `if` / `while` / `&&` / `||` / `(` / `!`, before ` {` / `&&` / `||` / `)` / `,` / `;`
+_OPND = r"\(?\*?[A-Za-z_]\w*(?:(?:\.|::)[A-Za-z_]\w*(?:\(\))?)*(?:\s+as\s+[a-z][a-z0-9]*)?\)?"
+_CMP = re.compile(r"((?:\bif\s|\bwhile\s|&&\s|\|\|\s|[(!]))\s*(" + _OPND + r")\s*(<=|>=|<|>)\s*(" + _OPND + r")(?=\s*(?:\{|&&|\|\||\)|,|;))")
+_FLIP = {"<": ">", ">": "<", "<=": ">=", ">=": "<="}
+
+
+def _opnd(x):
+    """an operand without the brackets a cast needs on the left of `<`"""
+    x = re.sub(r"\s+", " ", x.strip())
+    return x[1:-1] if x.startswith("(") and x.endswith(")") and not x.endswith("()") else x
+
+
+def _comparisons(body):
+    """[(start of lhs, end of rhs, lhs, op, rhs)] of the variable-versus-variable comparisons of a (masked) function body"""
+    res = []
+    for m in _CMP.finditer(body):
+        if re.fullmatch(r"[0-9_]+|[A-Z][A-Z0-9_]*", m.group(2)) or re.fullmatch(r"[0-9_]+|[A-Z][A-Z0-9_]*", m.group(4)):
+            continue      # against a constant: facts.canon turns those round
+        a0, b0, x, y = m.start(2), m.end(4), m.group(2), m.group(4)
+        if x.count("(") > x.count(")"):          # the bracket belongs to the expression around the comparison
+            a0, x = a0 + 1, x[1:]
+        if y.count(")") > y.count("("):
+            b0, y = b0 - 1, y[:-1]
+        if x.count("(") != x.count(")") or y.count("(") != y.count(")"):
+            continue
+        res.append((a0, b0, x, m.group(3), y))
+    return res
+
+
 def analyse(text, segments):
-    """{function key: {"l": [let names], "c": [[closure parameter names] ...]}} (functions that bind nothing are left out)"""
+    """{function key: {"l": [let names], "c": [[closure parameter names] ...], "m": [[lhs, op, rhs] ...]}} (functions that
+    bind nothing and compare nothing are left out)"""
     mk = _mask(text, segments)
     out = {}
     for key, _s, b, e in _functions(mk):
         body = mk[b:e]
         l, c = _lets(body), [names for _a, _b, _c, names in _closures(body)]
-        if l or c:
+        cm = [[_opnd(x), o, _opnd(y)] for _a, _b, x, o, y in _comparisons(body)]
+        if l or c or cm:
             out[key] = {"l": l, "c": c}
+            if cm:
+                out[key]["m"] = cm
     return out
 
 
@@ -339,7 +373,29 @@ def _restore(rel, text, rec, segments):
         if (ed[0], ed[1]) not in seen:
             seen.add((ed[0], ed[1]))
             uniq.append(ed)
-    return _apply(text, uniq) if uniq else text
+    if uniq:
+        text = _apply(text, uniq)
+        mk = _mask(text, segments)
+    # ---- phase 3: a comparison between two variables written from the other side (`b > a` for the recorded `a < b`) is read
+    # in the recorded orientation.  Only the exact mirror image of a recorded comparison that is itself missing is turned
+    # round: `a > b` or `b < a` for a recorded `a < b` are different tests and stay as they are
+    edits = []
+    for key, sig, b, e in _functions(mk):
+        want = rec.get(key)
+        if not want or not want.get("m"):
+            continue
+        have = [(a0, b0, _opnd(x), o, _opnd(y)) for a0, b0, x, o, y in _comparisons(mk[b:e])]
+        missing = [tuple(x) for x in want["m"]]
+        for _a, _b, x, o, y in have:
+            if (x, o, y) in missing:
+                missing.remove((x, o, y))
+        for a0, b0, x, o, y in have:
+            mirror = (y, _FLIP[o], x)
+            if mirror in missing and (x, o, y) not in [tuple(t) for t in want["m"]]:
+                missing.remove(mirror)
+                edits.append((b + a0, b + b0, "%s %s %s" % mirror))
+                NOTES.append("%s: fn %s: comparison %s %s %s read as recorded (%s %s %s)" % ((rel, key, x, o, y) + mirror))
+    return _apply(text, edits) if edits else text
 
 
 def record(repo, segments, tops=("sudachi/src", "sudachi-cli/src", "python/src", "plugin")):
